@@ -59,7 +59,7 @@ pub fn build(draws: &[u16], tier: Tier) -> Case {
 
 fn one(spec: RunSpec) -> Result<script::RunResult, Verdict> {
     match script::run_fresh(&Script { steps: vec![Step { runs: vec![spec], parallel: false }] }) {
-        Ok(mut r) => Ok(r.remove(0).remove(0)),
+        Ok(mut r) => Ok(script::normalise(&r.remove(0).remove(0))),
         Err(script::SubErr::Signal(sig)) => Err(Verdict::pass().fail("process_abort", format!("the child process running the model died from signal {}", sig))),
         Err(script::SubErr::Other(e)) => Err(Verdict::skip(&format!("subrun: {}", e))),
     }
